@@ -410,24 +410,40 @@ func (c *Completions) merge(other Completions) {
 	c.messages.Merge(other.messages)
 
 	for tag := range other.listLong {
+		if c.listLong == nil {
+			c.listLong = make(map[string]bool)
+		}
+
 		if _, found := c.listLong[tag]; !found {
 			c.listLong[tag] = true
 		}
 	}
 
 	for tag := range other.noSort {
+		if c.noSort == nil {
+			c.noSort = make(map[string]bool)
+		}
+
 		if _, found := c.noSort[tag]; !found {
 			c.noSort[tag] = true
 		}
 	}
 
 	for tag := range other.listSep {
+		if c.listSep == nil {
+			c.listSep = make(map[string]string)
+		}
+
 		if _, found := c.listSep[tag]; !found {
 			c.listSep[tag] = other.listSep[tag]
 		}
 	}
 
 	for tag := range other.pad {
+		if c.pad == nil {
+			c.pad = make(map[string]bool)
+		}
+
 		if _, found := c.pad[tag]; !found {
 			c.pad[tag] = other.pad[tag]
 		}
